@@ -135,6 +135,12 @@ func (x *gixIndex) SeriesID(s gixSeries) uint64 {
 // (unflushed) and one FlushSegments at the end. With cascade the index API's own cascade flag is
 // used instead of DropMeasurementIfSeriesNotExist.
 func (x *gixIndex) DropSeries(ss []gixSeries, cascade bool) (dropped int, err error) {
+	return x.DropSeriesOpt(ss, cascade, false)
+}
+
+// DropSeriesOpt: with keepSeriesFile the series stays in the series file, which is what the
+// engine does when another shard of the database still holds the series.
+func (x *gixIndex) DropSeriesOpt(ss []gixSeries, cascade, keepSeriesFile bool) (dropped int, err error) {
 	names := map[string]struct{}{}
 	parts := map[int]struct{}{}
 	var ids []uint64
@@ -156,6 +162,9 @@ func (x *gixIndex) DropSeries(ss []gixSeries, cascade bool) (dropped int, err er
 				return dropped, err
 			}
 		}
+	}
+	if keepSeriesFile {
+		return dropped, nil
 	}
 	for _, id := range ids {
 		p, err := x.SFile.DeleteSeriesID(id, tsdb.NoFlush)
